@@ -919,6 +919,10 @@ fn split_text(s: &str) -> Vec<String> {
             is_string = false;
         } else if c == '/' && iter.peek() == Some(&'/') && !is_string {
             is_comment = true;
+            // The comment ends the token before it: the line end that closes the
+            // comment must not be glued to a formal argument name.
+            ret.push(x);
+            x = String::from("");
         } else if !is_string {
             if is_ident != is_ident_prev {
                 ret.push(x);
